@@ -140,6 +140,11 @@ def sym_int(lo, hi, tag='i'):
             raise ReplayExhausted(i, 'int', lo, hi)
         v = int(st.replay[i])
         st.trace.append(('int', v))
+        if lo is None and hi is None:
+            # opaque value (default / annotation / argument): replayed as a FRESH int object outside the interned
+            # range, with the model's equalities preserved — under CrossHair two symbolic values are two objects
+            # too, and `is`-vs-`==` mistakes must reproduce
+            return int(str(v * 7 + 1000003))
         return v
     proxy_for_type, realize, NoTracing, context_statespace = _crosshair()
     from crosshair.libimpl.builtinslib import SymbolicBoundedInt
